@@ -21,7 +21,7 @@ ObsWhy(o) ==
     ELSE IF ~closed' /\ (o.pending > 0) # (pending' > 0) THEN "machinery: pending output differs between model and execution after " \o St.act
     ELSE "ok"
 TNext == /\ verdict = "ok" /\ l <= Len(C.steps)
-         /\ CASE St.act = "Advance" -> Advance [] St.act = "CSend" -> CSend [] St.act = "USend" -> USend
+         /\ CASE St.act = "Advance" -> Advance [] St.act = "CSend" -> CSend [] St.act = "CTouch" -> CTouch [] St.act = "USend" -> USend
               [] St.act = "CRead" -> CRead [] St.act = "Reap" -> Reap
          /\ verdict' = ObsWhy(St.obs)
          /\ l' = l + 1 /\ UNCHANGED tid
